@@ -139,6 +139,10 @@ pub enum Src0 {
     /// { let s = Arc::new(pipe); concat!(s.clone(), .., s.clone()) }: one source value subscribed k
     /// times, each time from inside the completion of the previous subscription
     Repeat(Box<Pipe>, usize),
+    /// { let s = Arc::new(pipe); pipe!(s.clone(), map(|a| map(|b| 7a + b)(s.clone())), flatten) }: one
+    /// source value subscribed again from inside each of its own deliveries (subscriptions that
+    /// overlap in time); the list function is xs.flat_map(|a| xs.map(|b| 7a + b))
+    SelfProduct(Box<Pipe>),
 }
 
 #[derive(Clone, Debug)]
@@ -185,6 +189,7 @@ impl Pipe {
             },
             Src0::Concat(v) => format!("concat!({})", v.iter().map(|p| p.show()).collect::<Vec<_>>().join(",")),
             Src0::Repeat(p, k) => format!("(let s = {}; concat!(s x{}))", p.show(), k),
+            Src0::SelfProduct(p) => format!("(let s = {}; s|map(a -> s|map(b -> 7a+b))|flatten)", p.show()),
         };
         format!("{}{}", s, self.stages.iter().map(|s| format!("|{}", s.show())).collect::<String>())
     }
@@ -230,6 +235,26 @@ pub fn build_pipe(p: &Pipe, ctx: &Ctx<'_>) -> Src<V> {
             let one = build_pipe(q, ctx);
             let srcs: Vec<Src<V>> = (0..*k).map(|_| Arc::clone(&one)).collect();
             Arc::new(callbag::concat(srcs.into_boxed_slice()))
+        },
+        Src0::SelfProduct(q) => {
+            let one = build_pipe(q, ctx);
+            let again = Arc::clone(&one);
+            let counters = Arc::clone(ctx.counters);
+            let mapped: Arc<callbag::Source<Src<V>>> = Arc::new(callbag::pipe!(
+                one,
+                callbag::map(move |a: i64| -> Src<V> {
+                    counters.closures.fetch_add(1, Ordering::SeqCst);
+                    let counters = Arc::clone(&counters);
+                    Arc::new(callbag::pipe!(
+                        Arc::clone(&again),
+                        callbag::map(move |b: i64| {
+                            counters.closures.fetch_add(1, Ordering::SeqCst);
+                            a.wrapping_mul(7).wrapping_add(b)
+                        })
+                    ))
+                })
+            ));
+            Arc::new(callbag::flatten(mapped))
         },
     };
     for st in &p.stages {
@@ -345,6 +370,18 @@ pub fn build_ref(p: &Pipe, counters: &Arc<Counters>) -> Box<dyn Iterator<Item = 
                 acc = Box::new(acc.chain(build_ref(q, counters)));
             }
             acc
+        },
+        Src0::SelfProduct(q) => {
+            let q2 = q.clone();
+            let counters2 = Arc::clone(counters);
+            Box::new(build_ref(q, counters).flat_map(move |a| {
+                counters2.closures.fetch_add(1, Ordering::SeqCst);
+                let counters3 = Arc::clone(&counters2);
+                build_ref(&q2, &counters2).map(move |b| {
+                    counters3.closures.fetch_add(1, Ordering::SeqCst);
+                    a.wrapping_mul(7).wrapping_add(b)
+                })
+            }))
         },
     };
     for st in &p.stages {
@@ -511,6 +548,8 @@ fn gen_pipe(g: &mut Gen<'_>, depth: usize, must_be_finite: bool) -> Pipe {
         Src0::Concat((0..k).map(|_| gen_pipe(g, depth - 1, true)).collect())
     } else if depth > 0 && g.next_leaf < 7 && g.c.chance(1, 6) {
         Src0::Repeat(Box::new(gen_pipe(g, depth - 1, true)), 2 + g.c.choose(2))
+    } else if depth > 0 && g.next_leaf < 7 && g.c.chance(1, 8) {
+        Src0::SelfProduct(Box::new(gen_pipe(g, depth - 1, true)))
     } else {
         let leaf = g.next_leaf;
         g.next_leaf += 1;
@@ -572,7 +611,7 @@ pub fn n_leaves(p: &Pipe) -> usize {
         match &p.src {
             Src0::Iter(i) => *m = (*m).max(i.leaf + 1),
             Src0::Concat(v) => v.iter().for_each(|q| walk(q, m)),
-            Src0::Repeat(q, _) => walk(q, m),
+            Src0::Repeat(q, _) | Src0::SelfProduct(q) => walk(q, m),
         }
         for s in &p.stages {
             if let Stage::Append(v) | Stage::Prepend(v) = s {
